@@ -188,7 +188,12 @@ func genScaleHist(rng *rand.Rand, o scaleOpts) *scaleHist {
 			if o.bigLines > 0 && rng.Intn(o.bigEvery) == 0 {
 				// the big file: kills and insertions within its first or last 60 lines
 				s := h.Seqs["big"]
-				tail := rng.Intn(2) == 0
+				region := rng.Intn(5) // 0, 1: head; 2, 3: tail; 4: somewhere in the middle
+				tail := region == 2 || region == 3
+				mid := 0
+				if region == 4 && len(s) > 120 {
+					mid = rng.Intn(len(s) - 120)
+				}
 				at := func() int {
 					k := rng.Intn(60)
 					if k >= len(s) {
@@ -197,7 +202,7 @@ func genScaleHist(rng *rand.Rand, o scaleOpts) *scaleHist {
 					if tail {
 						return len(s) - 1 - k
 					}
-					return k
+					return mid + k
 				}
 				for i := rng.Intn(5); i > 0 && len(s) > 0; i-- {
 					if l := s[at()]; alive(l) {
@@ -211,7 +216,7 @@ func genScaleHist(rng *rand.Rand, o scaleOpts) *scaleHist {
 				if tail && rng.Intn(2) == 0 {
 					pos = len(s)
 				}
-				if !tail && rng.Intn(2) == 0 {
+				if region < 2 && rng.Intn(2) == 0 {
 					pos = 0
 				}
 				insert(c, "big", pos, 1+rng.Intn(5))
@@ -581,7 +586,7 @@ func editLines(rng *rand.Rand, lines []string, head, tail bool) []string {
 	return lines
 }
 
-func genLinScale(rng *rand.Rand, n, bigLines, span int, backwards bool) []dstep {
+func genLinScale(rng *rand.Rand, n, bigLines, bigPr, span int, backwards bool) []dstep {
 	type file struct {
 		lines  []string
 		binary bool
@@ -618,7 +623,7 @@ func genLinScale(rng *rand.Rand, n, bigLines, span int, backwards bool) []dstep 
 		}
 		for e := 1 + rng.Intn(2); e > 0; e-- {
 			nm := names[rng.Intn(len(names))]
-			if bigLines > 0 && rng.Intn(20) == 0 {
+			if bigLines > 0 && rng.Intn(bigPr) == 0 { // every rewrite of the big file is spelled out in the trace: keep them rare
 				nm = "big"
 			}
 			f, ok := files[nm]
@@ -772,15 +777,14 @@ func emitLinScale(c *Config, in *input, steps []dstep) {
 func linScaleFamily(c *Config) {
 	rng := c.Rng
 	quick := c.Tier == "quick" || c.Tier == "search"
-	n, big := 1000, 10000
-	if !quick {
-		n, big = 10000, 100000
-	}
 	type v struct {
-		n, big, span int
-		back         bool
+		n, big, bigPr, span int
+		back                bool
 	}
-	vs := []v{{n, big, 1500, false}, {n, 0, 3000, true}, {n / 4, big / 10, 400, true}}
+	vs := []v{{1000, 10000, 20, 1500, false}, {1000, 0, 1, 3000, true}, {250, 1000, 20, 400, true}}
+	if !quick {
+		vs = []v{{10000, 20000, 100, 1500, false}, {10000, 0, 1, 3000, true}, {1000, 100000, 40, 1200, true}, {2500, 1000, 20, 400, true}}
+	}
 	for _, x := range vs {
 		in := &input{kind: "linscale", files: rng.Intn(2) == 0, people: rng.Intn(2) == 0}
 		for {
@@ -789,7 +793,7 @@ func linScaleFamily(c *Config) {
 				break
 			}
 		}
-		emitLinScale(c, in, genLinScale(rng, x.n, x.big, x.span, x.back))
+		emitLinScale(c, in, genLinScale(rng, x.n, x.big, x.bigPr, x.span, x.back))
 	}
 	// small ones with every option (times going backwards, binary flips) in numbers
 	for i := c.Count(60, 1000); i > 0; i-- {
@@ -801,6 +805,6 @@ func linScaleFamily(c *Config) {
 				break
 			}
 		}
-		emitLinScale(c, in, genLinScale(rng, 5+rng.Intn(40), []int{0, 0, 300}[rng.Intn(3)], span, rng.Intn(2) == 0))
+		emitLinScale(c, in, genLinScale(rng, 5+rng.Intn(40), []int{0, 0, 300}[rng.Intn(3)], 8, span, rng.Intn(2) == 0))
 	}
 }
